@@ -108,7 +108,7 @@ class Engine:
         if c is not None:
             return c
         s = z3.Solver()
-        s.set("timeout", 2000)
+        s.set("timeout", 400)
         s.add(*self.world.axioms_for(self.pc + [cond]))
         s.add(*self.pc)
         s.add(cond)
@@ -146,6 +146,34 @@ class Engine:
         if c is False:
             raise PathEnd()
         self.pc.append(cond)
+
+    # ---- quantifiers over index ranges.  Normal mode: z3 quantifiers.  Bounded-refutation mode
+    # (world.bound = N): finite expansion under the side condition hi - lo <= N, which is exact, so a
+    # `sat` answer is a genuine counterexample with short sequences; `unsat` there proves nothing.
+    def forall(self, lo, hi, fn, name="q"):
+        lo = lo if z3.is_expr(lo) else z3.IntVal(lo)
+        N = self.world.bound
+        if N is None:
+            i = self.fresh(name, I)
+            return z3.ForAll([i], z3.Implies(z3.And(i >= lo, i < hi), fn(i)))
+        self.side(hi - lo <= N)
+        return z3.And(*[z3.Implies(lo + k < hi, fn(z3.simplify(lo + k))) for k in range(N)])
+
+    def exists(self, lo, hi, fn, name="q"):
+        lo = lo if z3.is_expr(lo) else z3.IntVal(lo)
+        N = self.world.bound
+        if N is None:
+            i = self.fresh(name, I)
+            return z3.Exists([i], z3.And(i >= lo, i < hi, fn(i)))
+        self.side(hi - lo <= N)
+        return z3.Or(*[z3.And(lo + k < hi, fn(z3.simplify(lo + k))) for k in range(N)])
+
+    def side(self, cond):
+        c = sym.is_concrete_bool(cond)
+        if c is True:
+            return
+        if not any(cond.eq(x) for x in self.pc):
+            self.pc.append(cond)
 
     def fresh(self, prefix, sort):
         return z3.Const("%s!%d" % (prefix, next(self.counter)), sort)
@@ -269,15 +297,21 @@ class Engine:
         if isinstance(v, VOpaque):
             return self.world.opaque_const(v.name)
         if isinstance(v, VTup):
+            if getattr(v, "ref", None) is not None:
+                return v.ref
             n = len(v.items)
             arr = z3.K(I, sym.NONE)
             for i, it in enumerate(v.items):
                 arr = z3.Store(arr, i, self.box(it))
             ref = self.fresh("tup", V)
+            self.alloc_count = getattr(self, "alloc_count", 0) + 1
+            self.assume(sym.alloc(ref) == z3.Int("now") + self.alloc_count)
+            self.assume(ref != sym.NONE)
             self.assume(sym.seq_len(ref) == n)
             for i, it in enumerate(v.items):
                 self.assume(z3.Select(sym.seq_arr(ref), i) == self.box(it))
             self.assume(sym.ty(ref) == self.world.classes.of_py(v.pyclass()).t)
+            v.ref = ref
             return ref
         if isinstance(v, VDec):
             return self.world.box_dec(self, v)
@@ -796,7 +830,14 @@ class Engine:
     def ex_BoolOp(self, node, frame):
         is_and = isinstance(node.op, ast.And)
         if self.spec_mode:
-            ts = [self.truthy(self.eval(v, frame)) for v in node.values]
+            ts = []
+            for v in node.values:
+                t = self.truthy(self.eval(v, frame))
+                c = sym.is_concrete_bool(t)
+                if c is not None and c != is_and:
+                    # decisive operand: the rest is not evaluated (as in Python)
+                    return VBool(z3.BoolVal(c)) if not ts else VBool(z3.And(*ts) if is_and and not c else z3.Or(*(ts + [t])) if not is_and else z3.BoolVal(False))
+                ts.append(t)
             return VBool(z3.And(*ts) if is_and else z3.Or(*ts))
         v = None
         for sub_ in node.values:
